@@ -267,7 +267,7 @@ def decls(tier: str) -> tuple[list[tuple[str, str]], dict[str, list[str]]]:
     fam = tuple_family(tier)
     for lab in fam:
         add(lab, lab)
-    tup = list(TUP_RELATED) + [l for l in fam if l not in TUP_RELATED]
+    tup = [l for l in fam if l not in TUP_RELATED] + list(TUP_RELATED)  # simplest (fixed tuples) first
     return out, {"main": main, "tuples": tup}
 
 
